@@ -51,6 +51,7 @@ def scenarios(rng, thorough: bool):
     S_nc = {"content": noncanon, "mode": mode2}
     S_missing = {"content": None, "missing_parent": True}
     S_broken = {"content": broken, "mode": 0o644}
+    S_dir = {"content": None, "target_is_dir": True}
     out = []
 
     def add(i, entry, state, **op):
@@ -71,6 +72,7 @@ def scenarios(rng, thorough: bool):
     add("T13-invalid", "tool", S_old, content=broken)
     add("T14-changes-broken-file", "tool", S_broken, mode="changes", changes={"A": 1})
     add("T15-big", "tool", S_old, content=big, base="current")
+    add("T19-target-is-directory", "tool", S_dir, content=new)
     add("T18-noncanonical-content", "tool", S_old, content=noncanon.replace(f"A::{a}", f"A::{b}"), base="current")
     # atomic_write_octave (writes the text it is given)
     add("A01-new", "atomic", S_absent, content=new)
@@ -79,6 +81,7 @@ def scenarios(rng, thorough: bool):
     add("A04-stale", "atomic", S_old, content=new, base="stale", stale=stale)
     add("A05-missing-parent", "atomic", S_missing, content=new)
     add("A06-readonly-cas", "atomic", S_ro, content=new, base="current")
+    add("A08-target-is-directory", "atomic", S_dir, content=new)
     # `octave write`
     add("C01-new", "cli", S_absent, content=new)
     add("C02-overwrite-cas", "cli", S_old, content=new, base="current")
@@ -160,7 +163,8 @@ def run_case(item):
                        and after[p] != ("dir",))
         changed_other = sorted(p for p in before if p != rel_t and after.get(p) != before[p])
         new_dirs = sorted(p for p in after if p not in before and after[p] == ("dir",))
-        return {"result": out["result"], "records": out["records"], "killed": out["killed"], "exit": out["exit"],
+        return {"ext_text": plan.get("ext_text") if plan.get("ext_before") is not None and any(r["k"] == plan["ext_before"] for r in out["records"]) else None,
+                "result": out["result"], "records": out["records"], "killed": out["killed"], "exit": out["exit"],
                 "harness_error": out["harness_error"], "t0": t0, "t1": t1, "tmps": tmps, "extra": extra,
                 "changed_other": changed_other, "new_dirs": new_dirs, "parent_exists": os.path.isdir(sb.parent),
                 "apaths": {k: sb.apath(k) for k in ("target", "tmp", "parent")}, "afs": sb.abstract_fs(), "query": sb.query()}
@@ -201,12 +205,22 @@ def cleanup_faulted(run) -> bool:
     return any(r.get("fault") and r["role"] == "temp" and r["kind"] in ("unlink", "os_path_exists") for r in run["records"])
 
 
+def plan_ext(run):
+    return run.get("ext_text")
+
+
 def oracle(sc, run, new_bytes):
     """List of (why_class, why) — empty when the real outcome satisfies C16."""
     bad = []
     t0, t1 = run["t0"], run["t1"]
     res = run["result"]
     old_b = t0[0] if t0 and t0[0] != "notfile" else None
+    ext = plan_ext(run)
+    if ext is not None:
+        # the file somebody else wrote is a complete previous version too
+        alt = (ext.encode("utf-8"), t0[1] if t0 and t0[0] != "notfile" else 0o644)
+        if t1 == alt:
+            t1 = t0
     # all-or-nothing, at every interruption point and after every fault
     if t1 != t0:
         if not (t1 is not None and t1[0] != "notfile" and new_bytes is not None and t1[0] == new_bytes):
@@ -287,18 +301,45 @@ def compare(sc, plan, run, rep, new_text):
 
 
 # ------------------------------------------------------------------------------------------------------
-def plans_for(ref_run, thorough_mid=True):
-    """Single kill points and single faults for a scenario, from its reference run."""
+def plans_for(ref_run, all_validator_calls=True):
+    """Single kill points and single faults for a scenario, from its reference run.  Quick tier: inside a path-validator
+    group (one model step, read-only, every failure answers E_PATH) only the first two and the last call are used."""
     n = len(ref_run["records"])
     plans = []
+    skip = set()
+    if not all_validator_calls:
+        for (_name, _ok, ks) in F.group_steps(ref_run["records"]):
+            if _name == "validatePath" and len(ks) > 3:
+                skip |= set(ks[2:-1])
     for k in range(n):
+        if k in skip:
+            continue
         plans.append({"kill": k})
         if ref_run["records"][k]["kind"] in ("write", "write_fd"):
             plans.append({"kill": k, "kill_mid": True})
     for k in range(n):
+        if k in skip:
+            continue
         for e in ERRNOS:
             plans.append({"faults": {str(k): e}})
     return plans
+
+
+def ext_plans(sc, ref_run):
+    """Somebody else rewrites the target just before the re-read (exercises the hash-mismatch branch of the TOCTOU re-check)."""
+    if sc["op"].get("base") != "current":
+        return []
+    steps = F.group_steps(ref_run["records"])
+    names = [n for (n, _ok, _ks) in steps]
+    mk = next((i for i, n in enumerate(names) if n.startswith("mkstemp")), None)
+    if mk is None:
+        return []
+    out = []
+    other = C.DOC.format(a=987654, b="written by somebody else meanwhile")
+    for i, (n, _ok, ks) in enumerate(steps):
+        if i > mk and (n == "read target" or n.startswith("replace") or n == "exists target"):
+            out.append({"ext_before": ks[0], "ext_text": other})
+    return out
 
 
 def pair_plans(single_plan, single_run, errnos2):
@@ -311,8 +352,12 @@ def run(ctx: vlib.Ctx):
     ctx.rule = ("case = (scenario, kill point | fault set); scenarios x every numbered file-system call of the reference run x "
                 "{kill before, kill inside write, 5 errnos}; thorough adds every pair of faults along each single-fault run; "
                 "distinct = distinct (scenario id, plan); non-trivial = the plan is reached by the run")
+    import time as _t
+    t0 = _t.time()
+    phases = {}
     ctx.translate(PROJECT)
     proj = ctx.lean(PROJECT, PROPS)
+    phases["translate+lean build+audit"] = round(_t.time() - t0, 1)
     if vlib.fingerprints_changed(ctx.prop, ANCHORS):
         ctx.widen = max(ctx.widen, 8)
         ctx.notes.append("fingerprint of a modelled function changed: search widened")
@@ -351,48 +396,53 @@ def run(ctx: vlib.Ctx):
             ctx.failures.append({"case": {"scenario": sc, "plan": {}}, "why": "atomic_write_octave wrote other bytes than it was given",
                                  "why_class": "hash"})
 
+    phases["reference runs"] = round(_t.time() - t0, 1)
     # 2. plans
     items = [(by_id[sid], {}) for sid in refs]
     singles = []
     for sid, r in refs.items():
-        for p in plans_for(r):
+        for p in plans_for(r, ctx.thorough or ctx.widen > 1) + ext_plans(by_id[sid], r):
             singles.append((by_id[sid], p))
     if ctx.replay and "plan" in (case or {}):
         singles = [(scs[0], case["plan"])]
     runs = list(zip(items, refs.values()))
     single_runs = vlib.pmap(run_case, singles)
     runs += list(zip(singles, single_runs))
+    phases["single kill points / faults"] = round(_t.time() - t0, 1)
     # pairs: every second fault along each single-fault run (thorough); a seeded sample when widened in quick
     pairs = []
     if (ctx.thorough or ctx.widen > 1) and not ctx.replay:
         for (sc, p), r in zip(singles, single_runs):
-            if "faults" in p:
+            if "faults" in p and "ext_before" not in p:
                 pairs += [(sc, q) for q in pair_plans(p, r, ERRNOS)]
         if not ctx.thorough:
             ctx.rng.shuffle(pairs)
-            pairs = pairs[: ctx.budget(0, 60000) // 4]
+            pairs = pairs[: ctx.budget(1500, 60000)]
     elif not ctx.replay:
         # quick: a seeded sample of pairs (first fault swallowed or not), so the pair machinery runs every time
         cand = []
         for (sc, p), r in zip(singles, single_runs):
-            if "faults" in p:
+            if "faults" in p and "ext_before" not in p:
                 cand += [(sc, q) for q in pair_plans(p, r, ERRNOS)]
         ctx.rng.shuffle(cand)
-        pairs = cand[:1500]
+        pairs = cand[:800]
     runs += list(zip(pairs, vlib.pmap(run_case, pairs)))
 
+    phases["pairs"] = round(_t.time() - t0, 1)
     # 3. model replies
     reqs = [model_request(sc, p, r, new_text[sc["id"]]) for ((sc, p), r) in runs]
     reps = drv.batch_par(reqs) if drv is not None else [None] * len(reqs)
 
+    phases["lean driver"] = round(_t.time() - t0, 1)
+    ctx.extra["phase_seconds_cumulative"] = phases
     # 4. compare + oracle
     n_raised = 0
     mkdir_residue = 0
     for ((sc, p), r), rep in zip(runs, reps):
         case = {"scenario": sc["id"], "plan": p}
-        reached = bool(r["killed"]) or not p or all(any(rr["k"] == int(k) and rr.get("fault") for rr in r["records"]) for k in p.get("faults", {}))
+        reached = bool(r["killed"]) or not p or r.get("ext_text") is not None or all(any(rr["k"] == int(k) and rr.get("fault") for rr in r["records"]) for k in p.get("faults", {}))
         ctx.case(case, nontrivial=reached)
-        kind = "ref" if not p else "kill-mid" if p.get("kill_mid") else "kill" if "kill" in p else f"fault{len(p['faults'])}"
+        kind = "ref" if not p else "ext" if "ext_before" in p else "kill-mid" if p.get("kill_mid") else "kill" if "kill" in p else f"fault{len(p['faults'])}"
         ctx.count(f"{sc['entry']}:{kind}")
         if r["harness_error"]:
             raise vlib.Infra(f"harness error in child ({sc['id']} {p}): {r['harness_error']}")
@@ -411,6 +461,9 @@ def run(ctx: vlib.Ctx):
             ctx.failures.append({"case": {"scenario": sc, "plan": p}, "why": why, "why_class": cls,
                                  "observed": {"result": r["result"], "killed": r["killed"], "tmp_files": r["tmps"],
                                               "calls": [(x["k"], x["kind"], x["role"], x["ok"]) for x in r["records"]]}})
+        if p.get("ext_before") is not None:
+            ctx.count("external-modification-before-step (oracle only)")
+            continue
         if rep is not None:
             if "unsupported" in rep:
                 ctx.count("model_unsupported")
